@@ -467,7 +467,15 @@ fn suites_tree(id: &str, tier: Tier) -> Vec<Suite> {
             progs.sort();
             progs.dedup();
             let mut v = vec![];
-            v.push(Suite { name: "aborts+drops", host: HostKind::Direct, programs: progs.clone(), bounds: bounds(tier.pick(6, 8), tier.pick(1, 2), 1, tier.pick(1, 2), 2) });
+            if q {
+                // quick: full depth for the terms of up to 2 nodes and the sibling-containment programs,
+                // one step less for the (many) generic 3-node terms - the thorough tier runs all to depth 8
+                let (deep, wide): (Vec<P>, Vec<P>) = progs.iter().cloned().partition(|p| p.size() <= 2 || p.contains(&|x| matches!(x, P::Abortable(..))) && p.size() >= 4);
+                v.push(Suite { name: "aborts+drops", host: HostKind::Direct, programs: deep, bounds: bounds(6, 1, 1, 1, 2) });
+                v.push(Suite { name: "aborts+drops/3-node-terms", host: HostKind::Direct, programs: wide, bounds: bounds(5, 1, 1, 1, 2) });
+            } else {
+                v.push(Suite { name: "aborts+drops", host: HostKind::Direct, programs: progs.clone(), bounds: bounds(8, 2, 1, 2, 2) });
+            }
             for host in [HostKind::Direct, HostKind::StreamPoll, HostKind::CoreCmd] {
                 let silent = if host.is_core() { 0 } else { 2 };
                 v.push(Suite { name: "spawn-then-self-abort", host, programs: spawn_then_self_abort_programs().into_iter().filter(|p| !host.is_core() || !p.contains(&|q| matches!(q, P::JoinHosted(..)))).collect(), bounds: bounds(tier.pick(7, 9), 0, silent, 1, 2) });
